@@ -140,9 +140,14 @@ def genElemRound (i : Nat) : G (List String) := do
   -- the other protocol's section carries unrelated statements that must not apply
   let decoy : List RawMap := [{ type := 400, destination := (pb.getD 0 default).name }, { type := 401, destination := "out_if" }]
   let fmt0 ← genFormatter pb 0
+  -- statements shadowed by a later one with the same key (another destination): only the last one counts
+  let mut shadow : List RawMap := []
+  for m in maps do
+    if (← chance 1 5) then
+      shadow := shadow ++ [{ toRawMap m with destination := ← pick ["out_if", "in_if", (pb.getD 0 default).name] }]
   let raw : RawConfig := { fmt0 with
-    ipfix := if version = 10 then maps.map toRawMap else decoy,
-    v9 := if version = 9 then maps.map toRawMap else decoy }
+    ipfix := if version = 10 then shadow ++ maps.map toRawMap else decoy,
+    v9 := if version = 9 then shadow ++ maps.map toRawMap else decoy }
   let cid := "m" ++ toString (i % 3)
   let exps ← genExporters
   let e ← pick exps
